@@ -15,6 +15,7 @@ import (
 	"time"
 
 	config "github.com/TheCacophonyProject/go-config"
+	"github.com/TheCacophonyProject/go-cptv/cptvframe"
 	"github.com/TheCacophonyProject/lepton3"
 	"github.com/TheCacophonyProject/thermal-recorder/recorder"
 	"github.com/TheCacophonyProject/thermal-recorder/throttle"
@@ -255,6 +256,7 @@ type aWorld struct {
 	sent      map[int][][]uint16
 	kind      map[int]byte
 	tels      map[int]zz.Tel
+	shadow    *motionDetector
 }
 
 func newAWorld(sc *aScenario, opt aOpts) *aWorld {
@@ -296,6 +298,9 @@ func newAWorld(sc *aScenario, opt aOpts) *aWorld {
 	}
 	w.mp = NewMotionProcessor(lepton3.ParseRawFrame, &mc, rc, &config.Location{}, &zz.Listener{T: w.tr},
 		motionRec, w.cam, cont, w.sinks[zz.SinkTest])
+	// ground truth for "motion frame": a second detector of the same package (verified on its own by A.det),
+	// fed the accepted frames directly. The listener only tells what the processor chose to announce.
+	w.shadow = NewMotionDetector(mc, rc.PreviewSecs*w.cam.FPS(), w.cam)
 	w.upMs = 60000
 	w.lastFFCMs = 1000
 	return w
@@ -424,6 +429,13 @@ func (w *aWorld) exec(opt aOpts) *zz.Trace {
 				case nil:
 					ev.Ord = w.ord
 					w.ord++
+					f := cptvframe.NewFrame(w.cam)
+					for y := range pix {
+						copy(f.Pix[y], pix[y])
+					}
+					f.Status.TimeOn, f.Status.LastFFCTime = tel.TimeOn(), tel.LastFFCTime()
+					ev.Heard = ev.Motion
+					ev.Motion = w.shadow.Detect(f)
 				case *lepton3.BadFrameErr:
 					ev.ErrKind = 'b'
 				default:
@@ -431,6 +443,7 @@ func (w *aWorld) exec(opt aOpts) *zz.Trace {
 				}
 			case 'C':
 				w.mp.Reset(w.cam)
+				w.shadow.Reset(w.cam)
 			case 'T':
 				w.mp.StartSnapshot = true
 			}
